@@ -77,7 +77,17 @@ def deep_branch(draw, depth, where):
 @st.composite
 def document(draw, tier):
     mode = draw(st.integers(0, 19))
-    if mode == 0:
+    if mode == 2:
+        # a long, heavily annotated tracing: tens of kilobytes of text in which comments sit at every kind of offset
+        # (readers that work through the text in blocks meet comments across their block boundaries)
+        m = draw(st.integers(40, 90 if tier == "quick" else 400))
+        items = [draw(point())]
+        long_text = st.text(alphabet=st.sampled_from(list(" abcXYZ019().|;,+-eE")), min_size=30, max_size=90)
+        for _ in range(m):
+            items.append({"long": [draw(st.integers(0, 2 ** 31 - 1)), draw(st.integers(2, 9))]})
+            items.append({"comment": draw(long_text)})
+        br = {"items": items, "split": [draw(branch(1, 3, 2)), None] if draw(st.booleans()) else None}
+    elif mode == 0:
         depth = draw(st.integers(8, 12 if tier == "quick" else 150))
         br = draw(deep_branch(depth, draw(st.sampled_from(["first", "last", "middle", "mixed"]))))
     elif mode == 1:
